@@ -98,8 +98,12 @@ def main():
   sizes = (1, 2, 3, 5) if a.tier == 'quick' else (1, 2, 3, 4, 5, 6, 7, 8)
   for ht in ('carbon_ch', 'fnv1a_ch'):
     for n in sizes:
-      for trial in range(1 if a.tier == 'quick' else 3):
-        nodes = NODES[:n] if trial == 0 else rnd.sample(NODES, n)
+      for trial in range(2 if a.tier == 'quick' else 5):
+        # the destination list in its given order, reversed (a later destination that sorts lower
+        # meets the collisions the other way round), and random orders
+        nodes = NODES[:n] if trial == 0 else list(reversed(NODES[:n])) if trial == 1 else rnd.sample(NODES, n)
+        if trial == 1 and n == 1:
+          continue
         real = ConsistentHashRing(nodes, hash_type=ht)
         spec = S.build_ring(nodes, ht)
         evals += 1
